@@ -297,6 +297,15 @@ void run_typed(const RunCfg& c, const char* type_name) {
     what = e.what();
   } catch (const AbortRun&) {
     vpar::drain(-1);
+    // the scheduler ends a run that exceeds its step budget (or in which nobody can move) by unwinding the
+    // tasks with AbortRun: that is the verdict "the call never returns", not an abandoned run
+    if (!failed() && (vpar::budget_exhausted() || vpar::deadlocked())) {
+      string k = string(c.func == 0 ? "range" : (c.func == 1 ? "blocks" : "multi")) + (progress == 2 ? "/default_progress" : (progress == 1 ? "/progress_fn" : ""));
+      const char* cls = vpar::deadlocked() ? "deadlock" : "no_termination";
+      string msg = vpar::deadlocked() ? "no task can make a step and no timer is pending" : "the call did not finish within the step budget of the scheduler (it keeps running although every worker has stopped or all values are done)";
+      if (wraps) fail_soft("cursor_wrap/near_type_max", "end_value>max-threads*block", "end_value is within num_threads*block_size of " + string(type_name) + "'s maximum, the cursor wraps around: " + msg + " [" + cls + "]");
+      else fail_soft(cls, k, msg);
+    }
     throw;
   }
   set_context("");
